@@ -94,6 +94,13 @@ static bool end_dchunk(zckCtx *zck, zckComp *comp, const bool use_dict,
     VALIDATE_BOOL(zck);
     ALLOCD_BOOL(zck, comp);
 
+    /* An uncompressed chunk is stored as is, so both sizes must agree */
+    if(comp->data_idx && comp->data_idx->comp_length != fd_size) {
+        set_fatal_error(zck, "Uncompressed chunk has stored size %llu but declared size %llu",
+                        (long long unsigned) comp->data_idx->comp_length,
+                        (long long unsigned) fd_size);
+        return false;
+    }
     return true;
 }
 
